@@ -354,6 +354,25 @@ def judgeOp (env : Env) (parts : List String) (resp : String) : Verdict :=
         | _, _ => .fails "accepted although the document does not parse"
       | _ => judgeSignTx (beVal key) j false true resp
     | _, _ => .skip
+  | ["tx.encode", j, r, s, par] =>
+    -- a chosen signature (any scalar width): the bytes must strictly decode to the document's
+    -- fields followed by exactly (v | yParity, r, s) as canonical integers
+    match unhex j, unhex r, unhex s, par.toNat? with
+    | some j, some r, some s, some par =>
+      match Tx.parse j, resp.splitOn " " with
+      | .ok tx, ["ok", dg, enc] =>
+        match unhex enc with
+        | some encb =>
+          if dg != hx (Prim.keccak256 (Spec.Tx.signingPayload tx)) then .fails "signing digest is not keccak256 of the payload without signature"
+          else
+            let want := Spec.Tx.expected tx (some ⟨Spec.Tx.sigV tx par, beVal r, beVal s⟩)
+            match Spec.Tx.decode encb with
+            | some dec => expect (dec == want) "decoded fields / (v, r, s) differ from the document and the given signature"
+            | none => .fails "strict decoder rejects the signed bytes (non-canonical integer or length?)"
+        | none => .fails "unparsable"
+      | .ok _, _ => .fails "encoding an accepted transaction must succeed"
+      | _, _ => expect (resp == "err") "document does not parse: must be refused"
+    | _, _, _, _ => .skip
   | ["td.hash", j] => match unhex j with
     | some j => judgeTdHash j resp
     | none => .skip
